@@ -116,16 +116,21 @@ def primitives (op : String) (args : List String) : Option String :=
   | _, _ => none
 
 /-- verdict on a signature the library produced: strict DER, low S (reference test and the model of
-    `IsLowDERSignature`), reference verification under the key `secret·G` -/
-def signVerdict (secret : Bytes) (digest sig : Bytes) : String :=
+    `IsLowDERSignature`), reference verification under the key `secret·G`; and, when the raw output of
+    `ECDSA_sign` was observed, the model of what `CECKey.sign` does with it (`signFinish`) must give
+    exactly the signature the library returned -/
+def signVerdict (secret : Bytes) (digest sig : Bytes) (raw : Option Bytes) : String :=
   match Secp256k1.derDecodeStrict sig with
   | none => "bad:not-strict-der"
   | some (r, s) =>
     let low := Secp256k1.isLowS s
     let mlow := Model.Keys.isLowDERSignature sig
     let ver := Secp256k1.verify (Secp256k1.mulG (beNat secret)) (Secp256k1.digestNat digest) r s
-    if low && ver && (match mlow with | .ok true => true | _ => false) then "ok"
-    else s!"bad:lowS={bit low},verify={bit ver},modelLow={Res.render (mlow.map bit)}"
+    let fin := match raw with
+      | none => true
+      | some raw => (match Model.Keys.signFinish digest raw with | .ok (some out) => out == sig | _ => false)
+    if low && ver && fin && (match mlow with | .ok true => true | _ => false) then "ok"
+    else s!"bad:lowS={bit low},verify={bit ver},signFinish={bit fin},modelLow={Res.render (mlow.map bit)}"
 
 def glue (op : String) (args : List String) : Option String :=
   match op, args with
@@ -146,9 +151,13 @@ def glue (op : String) (args : List String) : Option String :=
            | .ok (sec, c) => s!"{toHex sec},{bit c},{toHex (Model.Keys.pubOfSecret sec c)}"
            | .error e => "err:" ++ e.family)
       | _, _, _ => badArgs
-  | "c13.signcheck", [secret, _c, digest, sig] => some <|
+  | "c13.signcheck", [secret, _c, digest, sig, raw] => some <|
       match parseHex? secret, parseHex? digest, parseHex? sig with
-      | some secret, some digest, some sig => signVerdict secret digest sig
+      | some secret, some digest, some sig =>
+          if raw == "-" then signVerdict secret digest sig none
+          else (match parseHex? raw with
+                | some raw => signVerdict secret digest sig (some raw)
+                | none => badArgs)
       | _, _, _ => badArgs
   | "c13.signFinish", [digest, raw] => some <|
       match parseHex? digest, parseHex? raw with
@@ -168,7 +177,8 @@ def glue (op : String) (args : List String) : Option String :=
       | _, _ => badArgs
   | "c13.toLowS", [sig] => some <|
       match parseHex? sig with
-      | some sig => (match Model.Keys.signatureToLowS sig with | some b => toHex b | none => "None")
+      | some sig => Res.render ((Model.Keys.signatureToLowS sig).map fun o =>
+          match o with | some b => toHex b | none => "None")
       | none => badArgs
   | "c13.fullyvalid", [pk] => some <|
       match parseHex? pk with
